@@ -458,6 +458,37 @@ fn filespec_case(ctx: &mut CaseCtx) -> CaseResult {
         }
         planted += 1;
     }
+    // things that are not files but are called like rotated log files of long ago: a FIFO (opening
+    // it would block for ever), a dangling link, a link to a FIFO
+    if rng.chance(1, 4) {
+        let old_infixes = ["r00500", "r2001-01-01_00-00-00", "r2001-01-01_00-00-00.restart-0000"];
+        let join = |i: &str| if fixed.is_empty() { i.to_string() } else { format!("{fixed}_{i}") };
+        for i in old_infixes {
+            let p = dir.join(format!("{}{sfx}", join(i)));
+            if p.symlink_metadata().is_ok() {
+                continue;
+            }
+            match rng.below(3) {
+                0 => {
+                    if let Ok(c) = std::ffi::CString::new(p.to_string_lossy().as_bytes()) {
+                        unsafe { libc::mkfifo(c.as_ptr(), 0o644) };
+                    }
+                }
+                1 => {
+                    let _ = std::os::unix::fs::symlink(dir.join("no_such_file_anywhere"), &p);
+                }
+                _ => {
+                    let f = dir.join("a_fifo_elsewhere");
+                    if let Ok(c) = std::ffi::CString::new(f.to_string_lossy().as_bytes()) {
+                        unsafe { libc::mkfifo(c.as_ptr(), 0o644) };
+                    }
+                    let _ = std::os::unix::fs::symlink(&f, &p);
+                }
+            }
+            planted += 1;
+            res.count("special_files_planted", 1);
+        }
+    }
     let mut calls = 0u64;
     let runs = rng.range(1, 3);
     let mut sentinel_expected: Option<String> = None;
